@@ -225,6 +225,9 @@ def gen_func(full):
     users.append((name, F, R('T', x, y, body=(Lit('B', x), Eq(y, fx(x))))))
     users.append((name, F, R('T', x, body=(Lit('B', x), Cmp('>', fx(x), N(2))))))
     users.append((name, F, R('T', x, Bin('+', fx(x), fx(y)), body=(Lit('A', x, y),))))
+    users.append((name, F, R('T', x, Bin('+', fx(x), fx(x)), body=(Lit('B', x),))))          # the same call twice: two independent conjuncts
+    users.append((name, F, R('T', x, ('list', (fx(x), fx(x))), body=(Lit('B', x),))))
+    users.append((name, F, R('T', x, y, body=(Lit('B', x), Eq(y, fx(x)), Cmp('<=', fx(x), y)))))
     users.append((name, F, R('T', x, ('if', Bin('<', x, N(2)), fx(x), N(0)), body=(Lit('B', x),))))
     users.append((name, F, R('T', x, ('list', (fx(x), x)), body=(Lit('B', x),))))
     users.append((name, F, R('T', x, fx(fx(x)), body=(Lit('B', x),))))
@@ -386,6 +389,10 @@ def gen_aggh(full):
       yield Case('AGGH', Program([dfn, R('T', x, Aggr(opk, arrow(y, y)), body=body, distinct=True)]), ['T'])
       yield Case('AGGH', Program([dfn, R('T', Aggr(opk, arrow(x, Bin('+', x, y))), body=body, distinct=True)]), ['T'], info='keyless')
     yield Case('AGGH', Program([R('T', x, named={'k': y}, body=body, distinct=True)]), ['T'])
+    yield Case('AGGH', Program([R('T', N(7), S('k'), body=body, distinct=True)]), ['T'])                      # all keys constant
+    yield Case('AGGH', Program([R('T', N(7), Aggr('Sum', y), body=body, distinct=True)]), ['T'])
+    yield Case('AGGH', Program([R('T', S('k'), value=Aggr('Max', y), body=body)]), ['T'])
+    yield Case('AGGH', Program([R('T', z, Aggr('Count', y), body=tuple(body) + (Eq(V('z'), N(3)),), distinct=True)]), ['T']) if 'z' not in lang.bvars(body) else None
     yield Case('AGGH', Program([R('T', x, y, body=body, distinct=True)]), ['T'])                            # plain distinct
     yield Case('AGGH', Program([R('T', x, body=body, distinct=True)]), ['T'])
     yield Case('AGGH', Program([R('T', Bin('+', x, y), body=body, distinct=True)]), ['T'])
@@ -603,6 +610,7 @@ def c02_cases(thorough):
     yield c
   for g in (gen_aggh(thorough), gen_agge(thorough), gen_neg(thorough)):
     for c in g:
+      if c is None: continue
       t = c.text()
       if t in seen: continue
       if not static_ok(c.program.rules(), 'T'): continue
@@ -866,6 +874,16 @@ def c18_cases(thorough):
   Ks = [None, 0, 1, 2, 3, 5]
   bodies = C18_BODIES if thorough else C18_BODIES[:5]
   orders = C18_ORDERS if thorough else C18_ORDERS[:4]
+  # a limit without order_by: which rows are kept is unspecified, except for K = 0 (none) and K >= number of rows (all)
+  for (head, body) in bodies[:3]:
+    for K in (0, 5):
+      for form in ('denot', 'ann'):
+        P = [R('P', *head, body=body, limit=K)] if form == 'denot' else [R('P', *head, body=body), Ann('@Limit(P, %d);' % K)]
+        for use, extra, preds in (('final', [], ['P']), ('plain', [R('T', x, y, body=(Lit('P', x, y),))], ['T']), ('agg', [R('T', x, Aggr('Count', y), body=(Lit('P', x, y),), distinct=True)], ['T']),
+                                  ('negated', [R('T', z, body=(Lit('B', z), Not(Lit('P', z, y))))], ['T'])):
+          c = Case('ORD/nolimit-order/' + use, Program(P + extra), preds, dbs=dbs, fact_dbs=[dbs[37]], info=dict(K=K, order=[], form=form, use=use, ordered=False))
+          c.ol = {'P': ([], K)} if form == 'ann' else None
+          yield c
   for (head, body), order in itertools.product(bodies, orders):
     for K in Ks:
       for form in ('denot', 'ann'):
@@ -915,6 +933,8 @@ def c08_shapes(thorough):
                           R('T', x, s_, body=(Lit('B', x), Not(Lit('P', x)), Eq(s_, Comb('Count', y, (Lit('Q', x, y), Not(Lit('P', y)))))))], ['P', 'Q'])
   S['constant_heads'] = ([R('P', N(1), x, body=(Lit('B', x), Cmp('<', x, N(2)))), R('Q', N(2), x, body=(Lit('B', x),)), R('T', x, body=(Lit('P', N(2), x),)),
                           R('U', x, y, body=(Lit('P', z, x), Lit('Q', z, y))), R('W', x, body=(Lit('Q', N(2), x), Lit('P', N(1), x)))], ['P', 'Q'])
+  S['all_injected_away'] = ([R('P', N(2)), R('Q', N(1)), R('F', x, body=(Cmp('<', x, N(2)),)), R('T', x, body=(Lit('P', x), Lit('F', x))), R('U', x, y, body=(Lit('P', x), Lit('Q', y), Cmp('<', x, y))),
+                             R('W', x, body=(Lit('Q', x), Lit('F', x)))], ['P', 'Q'])
   S['functional'] = ([R('P', x, value=y, body=(Lit('A', x, y),)), R('Q', x, value=Bin('+', Call('P', x), N(1)), body=(Lit('B', x),)), R('T', x, Call('Q', x), body=(Lit('B', x),))], ['P', 'Q'])
   if thorough:
     S['three_chain'] = ([R('P', x, y, body=(Lit('A', x, y),)), R('Q', x, y, body=(Lit('P', y, x),)), R('S', x, body=(Lit('Q', x, y), Lit('B', y))), R('T', x, body=(Lit('S', x), Not(Lit('P', x, x))))], ['P', 'Q', 'S'])
